@@ -764,6 +764,11 @@ Again:
 		// if err == io.EOF {
 		// 	err = io.ErrUnexpectedEOF
 		// }
+		// That only holds at a record boundary: an EOF in the middle of
+		// a record header means the stream was cut.
+		if err == io.EOF && len(b.data) > 0 {
+			err = io.ErrUnexpectedEOF
+		}
 		if e, ok := err.(net.Error); !ok || !e.Temporary() {
 			c.in.setErrorLocked(err)
 		}
